@@ -73,6 +73,8 @@ def run(rep, tier):
                   "update_ibi_pot.pl sweep %d: flag/continuation assignments are incomplete (i-flag %d, carried value %d, o-flag %d, value update %d)" % (k, len(fl_i), len(carry), len(fl_o), len(keep)),
                   "%s:%d" % (loc, a["line"]))
         sweeps.append((a["value"], g))
+    if len(sweeps) != 2:
+        raise AnalysisBroken("update_ibi_pot.pl: the two sweeps over the table were not recognised (found %d update assignments in loops over $i)" % len(sweeps))
     rep.check(len(sweeps) == 2 and leq(sweeps[0][0], sweeps[1][0]) and sweeps[0][1] == sweeps[1][1], "R19.1", "ibi|sweeps-agree", "forward and backward sweep use the same formula and guard", "the two sweeps of update_ibi_pot.pl disagree: %s" % sweeps, loc)
     passthrough(rep, trees[sc], sc, "r_aim", None, written_flag="flag")
 
@@ -82,6 +84,8 @@ def run(rep, tier):
     inv = [a for a in A[sc] if a["target"] == el("pot", i) and a["value"].has(sp.log)]
     ok = len(inv) == 1 and leq(inv[0]["value"], -S("$kbT") * sp.log(el("dist", i) / S("$norm")))
     g = inner_guards(inv[0]) if inv else []
+    if ok and not any("$dist_min" in x for x, _p in g):
+        raise AnalysisBroken("dist_boltzmann_invert.pl: the guard of the inversion (dist > dist_min) is not in a recognised form: %s" % g)
     ok = ok and g[:1] == [("(> elem(@dist, $i) $dist_min)", True)]
     rep.check(ok, "R19.1", "boltzmann|formula", "U = -kBT ln(P/norm) where P > dist_min", "dist_boltzmann_invert.pl computes %s under %s" % (inv[0]["value"] if inv else "?", g), loc, sample=True)
     norms = {}
